@@ -13,6 +13,7 @@ import (
 	"os"
 	"os/exec"
 	"path/filepath"
+	"sort"
 	"strconv"
 	"strings"
 	"sync"
@@ -222,6 +223,10 @@ type cliJob struct {
 	noretr    bool
 	sh        shape
 	refKey    string // limit_over_flush: which reference run gives the rows of the query without its LIMIT
+	iks       []ops.Key // cross_subquery: ORDER BY / LIMIT of the subquery
+	hasIL     bool
+	il        int
+	expected  [][]octosql.Value // lookup_limit_subquery: the result bag computed here
 	mode      int
 	placement int // 0 top level, 1 subquery, 2 WITH
 	keys      []ops.Key
@@ -413,6 +418,9 @@ func main() {
 		}
 	}
 
+	// round 2: LIMIT above / below ORDER BY and other nodes as pipelines, every node object run twice
+	ops.Round2Families(cf, "InProc", rng.Fork(), f.Cases(90, 900), false)
+
 	// ---- CLI ----
 	bin, err := buildCLI(f.Out)
 	if err != nil {
@@ -426,6 +434,7 @@ func main() {
 		nFiles = 12
 	}
 	var jobs []*cliJob
+	fileRows := map[int][][]octosql.Value{}
 	for d := 0; d < nFiles; d++ {
 		r := rng.Fork()
 		nrows := 1 + r.Intn(9) // an empty file has no columns to select: octosql rejects the query at typecheck time
@@ -444,6 +453,7 @@ func main() {
 		for _, row := range rows {
 			b.WriteString(jsonLine(row) + "\n")
 		}
+		fileRows[d] = rows
 		file := fmt.Sprintf("d%d.json", d)
 		if err := os.WriteFile(filepath.Join(f.Out, file), []byte(b.String()), 0o644); err != nil {
 			fmt.Fprintln(os.Stderr, err)
@@ -564,6 +574,70 @@ func main() {
 			}
 		}
 	}
+	// family "cross_subquery": LIMIT and ORDER BY on both sides of a subquery boundary, all combinations, over d0.json
+	{
+		rows := fileRows[0]
+		k1 := []ops.Key{{Desc: true, E: ops.Expr{Kind: ops.EVar, I: 0}}}
+		k2 := []ops.Key{{Desc: false, E: ops.Expr{Kind: ops.EVar, I: 1}}, {Desc: false, E: ops.Expr{Kind: ops.EVar, I: 2}}}
+		type innerV struct {
+			ks  []ops.Key
+			has bool
+			m   int
+		}
+		inners := []innerV{{k1, false, 0}, {nil, true, 4}, {k1, true, 4}, {k2, true, 2}}
+		for _, iv := range inners {
+			for oi, oks := range [][]ops.Key{nil, k2} {
+				for n := 0; n <= K; n++ {
+					for m := range modes {
+						if f.Tier != "thorough" && oi == 1 && m%2 == 1 {
+							continue // quick tier: the outer ORDER BY variants in two of the four modes
+						}
+						inner := "SELECT a, b, c FROM d0.json" + orderBy(iv.ks)
+						if iv.has {
+							inner += fmt.Sprintf(" LIMIT %d", iv.m)
+						}
+						q := fmt.Sprintf("SELECT a, b, c FROM (%s) t%s LIMIT %d", inner, orderBy(oks), n)
+						jobs = append(jobs, &cliJob{family: "cross_subquery", sh: shapeABC, mode: m, placement: 1, keys: oks, iks: iv.ks, hasIL: iv.has, il: iv.m, n: n, file: "d0.json", rows: rows, query: q})
+					}
+				}
+			}
+		}
+	}
+	// family "lookup_limit_subquery": a LIMIT m subquery (with and without an inner ORDER BY) on the right side of a
+	// LOOKUP JOIN is run again for every left row; the result bag is computed here
+	{
+		left, right := fileRows[0], fileRows[1]
+		sortedRight := append([][]octosql.Value{}, right...)
+		sort.SliceStable(sortedRight, func(i, j int) bool { // ORDER BY c DESC, then the values (the tree's order)
+			if c := sortedRight[i][2].Compare(sortedRight[j][2]); c != 0 {
+				return c > 0
+			}
+			for k := range sortedRight[i] {
+				if c := sortedRight[i][k].Compare(sortedRight[j][k]); c != 0 {
+					return c < 0
+				}
+			}
+			return false
+		})
+		for m := 0; m <= 4; m++ {
+			for v, src := range [][][]octosql.Value{right, sortedRight} {
+				sub := "SELECT a, b, c FROM d1.json r"
+				if v == 1 {
+					sub = "SELECT a, b, c FROM (SELECT a, b, c FROM d1.json r ORDER BY c DESC) s"
+				}
+				q := fmt.Sprintf("SELECT l.a AS a, l.b AS b, q.c AS c FROM d0.json l LOOKUP JOIN (%s LIMIT %d) q", sub, m)
+				var expected [][]octosql.Value
+				for _, l := range left {
+					for i := 0; i < m && i < len(src); i++ {
+						expected = append(expected, []octosql.Value{l[0], l[1], src[i][2]})
+					}
+				}
+				for mo := range modes {
+					jobs = append(jobs, &cliJob{family: "lookup_limit_subquery", sh: shapeABC, mode: mo, placement: 1, n: m, file: "d0.json", rows: left, expected: expected, query: q})
+				}
+			}
+		}
+	}
 	// family "limit_over_flush": Q LIMIT n against Q for queries with an operator that keeps emitting after its
 	// source ended (GROUP BY time ... TRIGGER ON WATERMARK over max_diff_watermark) above an inner LIMIT (or none)
 	nEv := 1
@@ -672,6 +746,15 @@ func main() {
 		var idx int
 		if j.family == "limit_over_flush" {
 			idx = cf.Add(fmt.Sprintf("CliLimitOf %s %s %s", lib.Z(int64(j.n)), coqRows(src), obs.Coq()), js, len(src) >= 3 && j.n > 0 && j.n < len(src))
+		} else if j.family == "cross_subquery" {
+			il := "None"
+			if j.hasIL {
+				il = "(Some " + lib.Z(int64(j.il)) + ")"
+			}
+			idx = cf.Add(fmt.Sprintf("Cli2 %s %s %s %s %s %s %s", coqModes[j.mode], ops.CoqKeys(j.iks), il, ops.CoqKeys(j.keys), lib.Z(int64(j.n)), coqRows(src), obs.Coq()), js, j.n > 0 && j.n < len(src))
+		} else if j.family == "lookup_limit_subquery" {
+			js["expected_bag"] = rowsJSON(j.expected)
+			idx = cf.Add(fmt.Sprintf("CliBag %s %s", coqRows(j.expected), obs.Coq()), js, j.n > 0 && len(j.expected) > 0)
 		} else {
 			idx = cf.Add(fmt.Sprintf("Cli %s %s %s %s %s %s %s", coqModes[j.mode], lib.CoqBool(j.placement > 0), lib.CoqBool(j.noretr), ops.CoqKeys(j.keys), lib.Z(int64(j.n)), coqRows(src), obs.Coq()), js,
 				len(src) >= 3 && (dup || j.family != "file") && j.n > 0 && j.n < len(src))
